@@ -40,6 +40,11 @@ L1DocumentedEnv == R.missing = <<>>
 \* a fresh work directory holds exactly the files of the archive (scripts whose first line is a probe)
 L1FreshWorkdir == \A k \in 1..Len(R.scripts) :
      (R.scripts[k].lines[1] = "probe" /\ R.obs[R.scripts[k].name] # <<>>) => R.obs[R.scripts[k].name][1] = "cwd= V= files=/seed.txt"
+\* a condition on a program named with a directory part is not answered from another script's files: a script that
+\* made no such program is never told there is one
+L1OwnFilesOnly == \A k \in 1..Len(R.scripts) :
+     (\A j \in 1..Len(R.scripts[k].lines) : R.scripts[k].lines[j] # "tooldef") =>
+        \A j \in 1..Len(R.obs[R.scripts[k].name]) : R.obs[R.scripts[k].name][j] # "mark has-slash"
 L1Terminates == R.end = "done" /\ \A n \in Names : R.verdict[n] \in {"pass", "fail", "skip"}
 
 Bad(name) == PrintT(<<"BAD", name, t>>)
@@ -53,4 +58,5 @@ InvL1HostVarsInvisible == L1HostVarsInvisible \/ Bad("L1HostVarsInvisible")
 InvL1Terminates == L1Terminates \/ Bad("L1Terminates")
 InvL1DocumentedEnv == L1DocumentedEnv \/ Bad("L1DocumentedEnv")
 InvL1FreshWorkdir == L1FreshWorkdir \/ Bad("L1FreshWorkdir")
+InvL1OwnFilesOnly == L1OwnFilesOnly \/ Bad("L1OwnFilesOnly")
 =============================================================================
